@@ -6,9 +6,15 @@ properties of the class; a size the budget can serve is handed on unchanged),
 R3 accounting against the `io` contract of the method that is called, and --
 for every method of the class -- loops that consume body data end on what the
 reads returned or on the live budget, never on a tally of requested sizes;
-exhaust() returns only after an empty read or with the budget used up.  ASGI (falcon.asgi.stream.BoundedStream):
-R4 per-path conservation in the receive loops, R5 termination, R6 lazy
-wrapping on both request classes.
+exhaust() returns only after an empty read or with the budget used up; the
+budget is written only by the constructor and by judged writes: the accounted
+deduction of a read, or a store that forces it to 0 on a path whose facts prove
+that a read asked for something other than 0 bytes came back empty (read(0)
+returns b'' too).  ASGI (falcon.asgi.stream.BoundedStream):
+R4 per-path conservation in the receive loops, and every normal return of
+exhaust() / readall() / the body iterator leaves the receive buffer empty and
+the budget at 0 (exhaust advancing the position by the buffered bytes it
+drops); R5 termination, R6 lazy wrapping on both request classes.
 """
 
 from __future__ import annotations
@@ -1057,7 +1063,7 @@ def check(run):
     run.assume('C07: an ASGI http.request event carries bytes under "body"; receive() returns a dict')
     run.rule('R1', r1_single_gate, 'WSGI: every raw-stream use is a clamped, accounted read', floor=2)
     run.rule('R2', r2_clamp_domain, 'WSGI: the clamp covers the whole domain of the size argument', floor=6)
-    run.rule('R3', r3_accounting, 'WSGI: the amount deducted is the number of bytes obtained; decisions about consumption rest on bytes obtained', floor=4)
-    run.rule('R4', r4_conservation, 'ASGI: per-path conservation in the receive loops', floor=10)
+    run.rule('R3', r3_accounting, 'WSGI: the amount deducted is the number of bytes obtained; decisions about consumption rest on bytes obtained; the budget is forced to 0 only on a proven end of stream', floor=5)
+    run.rule('R4', r4_conservation, 'ASGI: per-path conservation in the receive loops; draining operations leave nothing in the buffer', floor=15)
     run.rule('R5', r5_termination, 'ASGI: loops end on disconnect / missing keys; constructor clamps', floor=10)
     run.rule('R6', r6_lazy, 'lazy, memoised wrapping from Content-Length', floor=4)
